@@ -12,7 +12,7 @@ Proof. intro a. unfold pwm_of. apply clamp255_range. Qed.
 Lemma d_apply_ok : forall p m st v, Forall dev_ok (snd (d_apply p m st v)).
 Proof.
   intros [[in1 in2] en] m st v. unfold d_apply. cbn [snd]. apply Forall_app. split.
-  - destruct (pwm_of _ =? 0); [|destruct (Qltb 0 _)]; repeat constructor.
+  - destruct (Qeqb _ 0); [|destruct (Qltb 0 _)]; repeat constructor.
   - constructor; [apply pwm_range|constructor].
 Qed.
 
@@ -51,24 +51,26 @@ Proof.
   destruct (dmrun p m1 r) as [e2 g2]. cbn [fst snd] in *. apply Forall_app. split; assumption.
 Qed.
 
-(* ---- the expected refutation: a speed of 1/1000 ---- *)
+(* ---- the witness of the former refutation: a speed of 1/1000 (PWM count 0, yet driving) ---- *)
 Definition m0 (p : mpins) : motor := let '(a, b, c) := p in mkMotor (PI a, PI b, PI c) 0 false Coast 0 LastOther.
-Definition tiny_ops : list mop := [MSetSpeed (PF (1 # 1000)); MGetMode].
+Definition tiny_ops : list mop := [MSetSpeed (PF (1 # 1000)); MGetMode; MInvert; MGetMode; MGetApplied; MSetSpeed (PI 0); MGetMode].
 
-Lemma motor_tiny_mode_differs :
-  snd (dmrun (4, 5, 6) dminit tiny_ops) = [GNone; GMode Coast] /\
-  snd (fst (hmrun (4, 5, 6) (m0 (4, 5, 6)) tiny_ops)) = [GNone; GMode Drive].
+Lemma motor_tiny_mode_agrees :
+  snd (dmrun (4, 5, 6) dminit tiny_ops) = [GNone; GMode Drive; GNone; GMode Drive; GFloat (-1 # 1000); GNone; GMode Coast] /\
+  snd (fst (hmrun (4, 5, 6) (m0 (4, 5, 6)) tiny_ops)) = snd (dmrun (4, 5, 6) dminit tiny_ops).
 Proof. vm_compute. split; reflexivity. Qed.
 
-Lemma motor_tiny_signal_differs :
-  canon (map dconv (fst (dmrun (4, 5, 6) dminit tiny_ops))) <> canon (fst (fst (hmrun (4, 5, 6) (m0 (4, 5, 6)) tiny_ops))).
-Proof. vm_compute. discriminate. Qed.
+Lemma motor_tiny_signal_agrees :
+  map dconv (fst (dmrun (4, 5, 6) dminit tiny_ops)) =
+    [TL 4 255; TL 5 0; TL 6 0; TL 4 0; TL 5 255; TL 6 0; TL 4 0; TL 5 0; TL 6 0] /\
+  fst (fst (hmrun (4, 5, 6) (m0 (4, 5, 6)) tiny_ops)) = map dconv (fst (dmrun (4, 5, 6) dminit tiny_ops)).
+Proof. vm_compute. split; reflexivity. Qed.
 
 (* a non-trivial in-guard history on which the two sides agree (non-vacuity of the guard; the general
    simulation theorem for the motor is not proved in this package - see the evidence) *)
 Definition demo_ops : list mop :=
   [MSetSpeed (PF (1 # 2)); MGetSpeed; MBackward (Some (PF (1 # 4))); MInvert; MGetApplied; MStop; MGetMode;
-   MRamp (PI 1) (PI 100); MRunFor (PI 50) (PF (3 # 8)); MCoast; MIsInverted].
+   MRamp (PI 1) (PI 100); MRunFor (PI 50) (PF (3 # 8)); MCoast; MIsInverted; MBackward (Some (PF (1 # 1024))); MGetMode].
 
 Lemma motor_demo_agrees :
   forallb (fun b => b) (motor_guard_flags (m0 (4, 5, 6)) demo_ops) = true /\
